@@ -60,7 +60,9 @@ using std::size_t;
 // The maximum number of digits that sprintf can put in a buffer.
 // 100 for now.  We're using this because we want to avoid transcoding
 // number strings when we don't have to,
-const size_t    MAX_PRINTF_DIGITS = 100;
+// Large enough for the largest double printed with "%.35f": 309 integer
+// digits, the decimal point, 35 fraction digits and a sign.
+const size_t    MAX_PRINTF_DIGITS = 350;
 
 // The maximum number of characters for a floating point number.
 const size_t    MAX_FLOAT_CHARACTERS = 100;
